@@ -54,7 +54,8 @@ def stream(name, n, shards, rule, driver="drv_codec", flush=False, **kw):
 ENC = lambda q, t: stream("codec.enc", {"quick": q, "thorough": t, "search": q}, {"quick": 8, "thorough": 16, "search": 8},
     "random messages of ~60 target types per shard (generated descriptors: enums declared in and out of numeric order and with gaps; the "
     "showcase file g0 has objects flattened 1..7 levels deep with several properties in the innermost object, flattened members are "
-    "populated with probability 0.7 per level; 18% with one class of non-representable value: non-finite float, out-of-range date / "
+    "populated with probability 0.7 per level; dates: 1/6 February 29 of a leap year (4, 400, 1600, 2000, 2400 …), 1/6 February 28 of a "
+    "non-leap year (100, 1900, 2100 …), 1/6 the last day of a random month; 18% with one class of non-representable value: non-finite float, out-of-range date / "
     "timestamp, invalid UTF-8, undefined enum number, malformed decimal, empty / unresolvable Any; for 1/3 of the messages holding a j5 "
     "Any the unpopulated bytes fields of the Any are stored as empty non-nil slices, `(meta emptybytes)`; bytes values: short, and 1/12 of "
     "them 1000..5000 bytes incl. the 1 / 2 / 3 / 4 KiB boundaries +-2; map keys: 1/2 everyday, 1/4 from a list of C0 controls without a JSON "
@@ -68,7 +69,8 @@ DEC = lambda q, t: stream("codec.dec", {"quick": q, "thorough": t, "search": q},
     "spelling variations (quoted/bare numbers, float respelling, base64 alphabet / padding, enum prefix, RFC3339 offset, member "
     "reordering, whitespace, explicit nulls for absent members, \\u escapes), (4/8) exactly one fault (wrong type, unparsable / "
     "out-of-range number, a bare 64-bit integer in fraction / exponent syntax whose value (> 2^53, odd, or just outside the range) float64 "
-    "cannot represent, invalid base64 / date / decimal / timestamp, unknown enum, unknown key, two keys in a oneof (J5 oneof object or two members of a plain proto oneof), contradicting "
+    "cannot represent, invalid base64 / date / decimal / timestamp, a day that does not exist (February 29 on non-leap years incl. the century "
+    "years 1700 1800 1900 2100 … 9900, February 30, day 31 of a 30-day month), unknown enum, unknown key, two keys in a oneof (J5 oneof object or two members of a plain proto oneof), contradicting "
     "!type before the arm key and as the last member) at a random position (top / nested / array element / map value / oneof arm) -> JSONToProto. Go oracle: variation decodes to "
     "the same message as the canonical spelling, fault is rejected, accepted => re-encode == canonDoc(document). Non-trivial = accepted "
     "document; distinct by root + document bytes.")
